@@ -391,6 +391,31 @@ func listOf(r *rand.Rand, model, els []any, o ReprOpts, t *ReprTrace) any {
 		}
 	}
 	mode := r.IntN(10)
+	if mode >= 8 && !o.NoTyped && !o.NoArrays && len(model) > 0 && r.IntN(3) == 0 {
+		// a Go ARRAY of bytes ([N]uint8: digests, addresses). Unlike []byte, encoding/json writes it as an array of numbers.
+		// Held in an interface or inside an outer array it is not addressable.
+		bs := make([]uint8, 0, len(model))
+		for _, m := range model {
+			n, isNum := m.(json.Number)
+			if !isNum {
+				break
+			}
+			for _, f := range numberReprs(string(n), ReprOpts{NoNumberSpellings: true}) {
+				if v, k := f(); k == "uint8" {
+					bs = append(bs, v.(uint8))
+					break
+				}
+			}
+		}
+		if len(bs) == len(model) {
+			a := reflect.New(reflect.ArrayOf(len(bs), reflect.TypeOf(uint8(0)))).Elem()
+			for i, b := range bs {
+				a.Index(i).SetUint(uint64(b))
+			}
+			t.note("array[uint8]")
+			return a.Interface()
+		}
+	}
 	if mode >= 5 && !o.NoTyped { // typed container
 		if ty, vals := commonType(r, model, els, o); ty != nil {
 			if vals == nil {
